@@ -404,6 +404,47 @@ func NilTests(fn *ssa.Function, v ssa.Value) []NilTest {
 	return out
 }
 
+// EqTest describes an If on `x == y` / `x != y`.
+type EqTest struct {
+	If     *ssa.If
+	Eq, Ne *ssa.BasicBlock // successors taken when the operands are equal / differ
+	X, Y   ssa.Value       // in the order match accepted them
+}
+
+// EqTests finds the Ifs whose condition is an (in)equality of two operands
+// accepted by match (tried in both orders); == and != are treated alike.
+func EqTests(fn *ssa.Function, match func(x, y ssa.Value) bool) []EqTest {
+	var out []EqTest
+	for _, b := range fn.Blocks {
+		if len(b.Instrs) == 0 {
+			continue
+		}
+		iff, ok := b.Instrs[len(b.Instrs)-1].(*ssa.If)
+		if !ok {
+			continue
+		}
+		bo, ok := iff.Cond.(*ssa.BinOp)
+		if !ok || (bo.Op != token.EQL && bo.Op != token.NEQ) {
+			continue
+		}
+		x, y := bo.X, bo.Y
+		if !match(x, y) {
+			x, y = y, x
+			if !match(x, y) {
+				continue
+			}
+		}
+		t := EqTest{If: iff, X: x, Y: y}
+		if bo.Op == token.EQL {
+			t.Eq, t.Ne = b.Succs[0], b.Succs[1]
+		} else {
+			t.Eq, t.Ne = b.Succs[1], b.Succs[0]
+		}
+		out = append(out, t)
+	}
+	return out
+}
+
 // NilTestsWhere finds the Ifs comparing a value accepted by match with nil.
 func NilTestsWhere(fn *ssa.Function, match func(v ssa.Value) bool) []NilTest {
 	var out []NilTest
